@@ -1006,6 +1006,9 @@ pub fn analyse(case: &IterCase, res: &RunResult) -> CaseReport {
                     Some(d) if d.sig == *sig && d.start < *pos => {
                         if !seen_ids.insert(*id) {
                             rep.viol("C10/record", format!("delivery {} of signal {} produced two records", id, sig));
+                            if case.exf % 3 == 2 {
+                                rep.viol("C17/process", format!("two reported origins of signal {} carry the sender of delivery {}: one of them was handed out for a different delivery, whose real sender is thereby misreported (and lost)", sig, id));
+                            }
                         }
                         // order within one signal
                         if let Some(prev) = last_rec_delivery.get(&(*sig, ytid)) {
@@ -1036,7 +1039,12 @@ pub fn analyse(case: &IterCase, res: &RunResult) -> CaseReport {
                             rep.viol("C10/record", format!("{} process-less origin records of signal {} although only {} deliveries without a sender had begun", n, sig, begun));
                         }
                     }
-                    _ => rep.viol("C10/record", format!("yielded record (signal {}, sender id {}) matches no delivery that had begun", sig, id)),
+                    _ => {
+                        rep.viol("C10/record", format!("yielded record (signal {}, sender id {}) matches no delivery that had begun", sig, id));
+                        if case.exf % 3 == 2 {
+                            rep.viol("C17/stale-info", format!("a reported origin (signal {}, sender {}) matches nothing the kernel supplied for any delivery that had begun: stale or overlapping memory", sig, id));
+                        }
+                    }
                 }
             }
         }
